@@ -168,6 +168,48 @@ Theorem ss_binary_lambda_of_stored_fractions : forall fun1 fun2 (e : env),
 Proof. exact Tie.ss_binary_lambda_of_stored_fractions. Qed.
 Print Assumptions ss_binary_lambda_of_stored_fractions.
 
+(* end-to-end: a pure-phase row accepted by the regenerated convergence tests is a valid state of the property
+   (the predicate the checker decides); from the solver only its sign / bound constraints on the amounts are taken *)
+Theorem converged_pp_row_valid : forall fun1 fun2, libm_ok fun1 -> forall (e : env) (target si init : R),
+    row_env fun1 fun2 e ->
+    e "x.pp_assemblage_comp_ptr.add_formula.size" = 0 ->
+    e "x.dissolve_only" = Q2R c_FALSE ->
+    e "residual" = eden fun1 fun2 e res_pp_residual ->
+    keeps fun1 fun2 "converge" res_pp e ->
+    keeps fun1 fun2 "remove_unstable_phases" chk_pp e ->
+    keeps fun1 fun2 "called:error_msg" chk_pp e ->
+    e "x.f" = target - si ->
+    0 <= e "x.moles" ->
+    pp_validR KNormal target init (e "x.moles") si.
+Proof. exact Tie.converged_pp_row_valid. Qed.
+Print Assumptions converged_pp_row_valid.
+
+Theorem converged_dissolve_only_row_valid : forall fun1 fun2, libm_ok fun1 -> forall (e : env) (target si : R),
+    row_env fun1 fun2 e ->
+    e "x.pp_assemblage_comp_ptr.add_formula.size" = 0 ->
+    e "x.dissolve_only" = Q2R c_TRUE ->
+    e "residual" = eden fun1 fun2 e res_pp_residual ->
+    keeps fun1 fun2 "converge" res_pp e ->
+    e "x.f" = target - si ->
+    0 <= e "x.moles" <= e "x.pp_assemblage_comp_ptr.initial_moles" ->
+    pp_validR KDissolve target (e "x.pp_assemblage_comp_ptr.initial_moles") (e "x.moles") si.
+Proof. exact Tie.converged_dissolve_only_row_valid. Qed.
+Print Assumptions converged_dissolve_only_row_valid.
+
+Theorem converged_precipitate_only_row_valid : forall fun1 fun2, libm_ok fun1 -> forall (e : env) (target si init : R),
+    row_env fun1 fun2 e ->
+    e "x.pp_assemblage_comp_ptr.add_formula.size" = 0 ->
+    e "x.dissolve_only" = Q2R c_FALSE ->
+    e "residual" = eden fun1 fun2 e res_pp_residual ->
+    keeps fun1 fun2 "converge" res_pp e ->
+    keeps fun1 fun2 "remove_unstable_phases" chk_pp e ->
+    keeps fun1 fun2 "called:error_msg" chk_pp e ->
+    e "x.f" = target - si ->
+    0 <= e "x.moles" -> 0 <= init ->
+    pp_validR KPrecip target init (e "x.moles" + init) si.
+Proof. exact Tie.converged_precipitate_only_row_valid. Qed.
+Print Assumptions converged_precipitate_only_row_valid.
+
 (* the executable checker applied to what the implementation reports is sound for the property *)
 Theorem check_hetero_sound : forall c : hcase, case_ok c = true -> hetero_valid c.
 Proof. exact SpecProofs.case_ok_sound. Qed.
